@@ -198,8 +198,8 @@ def r03_3(ctx: Ctx):
                     while isinstance(incr, ast.Name) and incr.id in defs and len(defs[incr.id]) == 1 and hops < 4:
                         incr = defs[incr.id][0]
                         hops += 1
-                    if incr is not None and isinstance(incr, ast.Attribute) and incr.attr == "nfev" and isinstance(incr.value, ast.Name):
-                        src = defs.get(incr.value.id, [])
+                    if incr is not None and isinstance(incr, ast.Attribute) and incr.attr == "nfev" and isinstance(incr.value, (ast.Name, ast.Call)):
+                        src = defs.get(incr.value.id, []) if isinstance(incr.value, ast.Name) else [incr.value]
                         good = len(src) == 1 and isinstance(src[0], ast.Call) and any(cs.node is src[0] and cs.external and cs.external.startswith("scipy.optimize.") for cs in ctx.res.callsites(f))
                         if good:
                             from ..core import effective_keywords
